@@ -63,6 +63,12 @@ def run_C11(ctx):
     ctx.cov["exhaustive"] = True
     st = ctx.vh("c11-replay", r.out, "selftest")
     ctx.selftest(st["n_mismatch"] == st["cases"], "C11 G: every corrupted verdict is reported")
+    # the second resolver (the MACRO/PASTE pass re-resolves every directive): whole documents and their explicit-context variants
+    rd = ctx.tlc("MC_C08doc", cfg="MC_C08doc_quick.cfg" if ctx.quick else "MC_C08doc_thorough.cfg", timeout=3000)
+    resd = ctx.vh("c11-docs", rd.out, timeout=3000)
+    if not resd.get("counters", {}).get("compared"):
+        raise MachineryError("C11: no document reached the comparison of the MACRO/PASTE pass")
+    ctx.absorb(resd, "G:c11-docs(MACRO/PASTE pass)")
     # the same resolver when the chain of open contexts spans an INCLUDE (verdicts and targets; traces are C07's)
     _include_contexts(ctx, "G:c07-replay(contexts across files)", ["c07:class-", "c07:spec-", "c07:file-", "c07:line-", "c07:panic", "c07:tree-"])
     # V: recorded executions validated by Trace_C11
@@ -157,6 +163,10 @@ def run_C10(ctx):
     ctx.cov["exhaustive"] = True
     st = ctx.vh("c10-replay", r.out, "selftest")
     ctx.selftest(st["n_mismatch"] == st["cases"], "C10 G: every corrupted expectation is reported")
+    # one macro body pasted at 1..3 sites (root, two URLs, a method of each): documents beyond the length bound above
+    rs = ctx.tlc("MC_C10sites", cfg="MC_C10sites.cfg", timeout=900)
+    ress = ctx.vh("c10-replay", rs.out)
+    ctx.absorb(ress, "G:c10-replay(paste sites)")
     # cycles of every length 1..4 (and a long chain that is not a cycle)
     r2 = ctx.tlc("MC_C10cyc", timeout=900)
     res2 = ctx.vh_isolated("c10-replay", r2.out, chunk=400, timeout=120, sig_prefix="c10")
@@ -266,6 +276,10 @@ def run_C02(ctx):
     ctx.cov["exhaustive"] = True
     st = ctx.vh("doc-replay", r.out, "selftest")
     ctx.selftest(st["n_mismatch"] == st["cases"], "C02 G: corrupted skeletons / verdicts are reported")
+    # a layout may also distribute the description over INCLUDEd files: the split projects of MC_C09 (same catalog as the unsplit text)
+    r9 = ctx.tlc("MC_C09", cfg="MC_C09_quick.cfg" if ctx.quick else "MC_C09_thorough.cfg", timeout=3000)
+    res9 = ctx.vh("c09-replay", r9.out)
+    ctx.absorb(res9, "G:c09-replay(layout: split over INCLUDEd files)")
 
 
 def run_C05(ctx):
@@ -329,6 +343,10 @@ def run_C19(ctx):
         raise MachineryError("C19: %s of 31 kinds were banned" % res.get("extra"))
     ctx.absorb(res, "G:c19-replay")
     ctx.cov["exhaustive"] = True
+    # option VALUES reused across builds (a server makes its options once): every history of MC_C06; C19 owns the verdict class
+    rh = ctx.tlc("MC_C06", cfg="MC_C06_quick.cfg" if ctx.quick else "MC_C06_thorough.cfg", timeout=1800)
+    resh = ctx.vh("c06-hist-replay", rh.out, timeout=3000)
+    ctx.absorb(_only(resh, ["c06:history-class"]), "G:c06-hist-replay(ban options reused)")
     st = ctx.vh("c19-replay", r.out, "selftest")
     ctx.selftest(st["n_mismatch"] == st["cases"] - st.get("counters", {}).get("earlier-fault", 0), "C19 G: inverted expectations are reported")
 
@@ -355,7 +373,7 @@ def _sweep(ctx, checks, nmut):
     """accepted projects: the documents of the block model, the corpus, and seeded mutations of the corpus"""
     cfg = "MC_C02_gen.cfg" if ctx.quick else "MC_C02_quick.cfg"
     r = ctx.tlc("MC_C02", cfg=cfg, timeout=3300)
-    a = ctx.vh("sweep", checks, "model:" + r.out, timeout=3300)
+    a = ctx.vh("sweep", checks, ("modelall:" if checks == "c06" else "model:") + r.out, timeout=3300)
     b = ctx.vh("sweep", checks, "corpus:" + REPO, nmut, ctx.seed, timeout=3300)
     c = ctx.vh("sweep", checks, "docs", timeout=600)
     return a, b, c
